@@ -374,22 +374,29 @@ def quantifier(e, st, n, forall):
     a = n.args
     if len(a) == 4:
         var = a[0].id
-        v = z3.Int(var)
+        v = z3.Int(var + '?b')
         sub = St(dict(st.env), st.heap, st.pc)
         sub.env[var] = SV(v, 'int')
         lo, hi = I(e.ev(a[1], st)), I(e.ev(a[2], st))
         rng = z3.And(lo <= v, v < hi)
-        body = e.truth(e.ev(a[3], sub))
+        e.bound_ids[v.get_id()] = e.bound_ids.get(v.get_id(), 0) + 1
+        try:
+            body = e.truth(e.ev(a[3], sub))
+        finally:
+            e.bound_ids[v.get_id()] -= 1
+            if not e.bound_ids[v.get_id()]:
+                del e.bound_ids[v.get_id()]
         body = z3.BoolVal(body) if isinstance(body, bool) else body
         if forall:
             return SV(z3.ForAll([v], z3.Implies(rng, body)), 'bool')
         return SV(z3.Exists([v], z3.And(rng, body)), 'bool')
     if len(a) == 3:
         names = [x.id for x in (a[0].elts if isinstance(a[0], ast.Tuple) else [a[0]])]
-        vs = [z3.Int(x) for x in names]
+        vs = [z3.Int(x + '?b') for x in names]
         sub = St(dict(st.env), st.heap, st.pc)
         for nm, v in zip(names, vs):
             sub.env[nm] = SV(v, 'int')
+            e.bound_ids[v.get_id()] = e.bound_ids.get(v.get_id(), 0) + 1000000     # never released: names are reserved
         cond = e.truth(e.ev(a[1], sub))
         cond = z3.BoolVal(cond) if isinstance(cond, bool) else cond
         body = e.truth(e.ev(a[2], sub))
@@ -445,3 +452,61 @@ def assign_view(e, st, view, v, node):
 
 import itertools  # noqa: E402
 _ctr = itertools.count()
+
+
+# ---------------------------------------------------------------- numpy object-level glue used by the thin wrappers
+@builtin('numpy.asanyarray', 'numpy.asarray', 'numpy.ascontiguousarray')
+def _asanyarray(e, st, args, kw, n):
+    a = args[0]
+    dt = kw.get('dtype', args[1] if len(args) > 1 else None)
+    if isinstance(a, Arr) and (dt is None or (isinstance(dt, DT) and a.dt is not None and dt.np_name == a.dt.np_name)):
+        e.note_assumed('numpy.asanyarray/ascontiguousarray of an ndarray that already has the requested dtype returns the same data')
+        return a
+    raise Unsupported('asanyarray with conversion')
+
+
+@builtin('numpy.isclose')
+def _isclose(e, st, args, kw, n):
+    a, b = args[0], args[1]
+    if isinstance(a, SV) and isinstance(b, SV) and a.t.eq(b.t):
+        return True
+    if not isinstance(a, SV) and not isinstance(b, SV):
+        return abs(a - b) <= 1e-8 + 1e-5 * abs(b)
+    raise Unsupported('isclose on distinct symbolic values')
+
+
+@method('reshape')
+def _reshape(e, st, obj, args, kw, n):
+    shp = tuple(args[0]) if len(args) == 1 and isinstance(args[0], (tuple, list)) else tuple(args)
+    if isinstance(obj, Arr) and obj.ndim == 2 and len(shp) == 2 and shp[0] == -1:
+        c = conc_int(obj.shape[1])
+        if c is not None and c == shp[1]:
+            e.note_assumed('ndarray.reshape(-1, k) of an (N, k) array is the identity view')
+            return obj
+    raise Unsupported('reshape ' + repr(shp))
+
+
+@method('view')
+def _view(e, st, obj, args, kw, n):
+    if isinstance(obj, Arr) and not args and not kw:
+        return Arr(obj.base, list(obj.axes), obj.ety, obj.dt, obj.readonly)
+    raise Unsupported('view with arguments')
+
+
+@builtin('sorted')
+def _sorted(e, st, args, kw, n):
+    return sorted(args[0])
+
+
+@builtin('str')
+def _str(e, st, args, kw, n):
+    return str(args[0])
+
+
+@builtin('type')
+def _type(e, st, args, kw, n):
+    v = args[0]
+    for nm, t in (('str', str), ('bool', bool), ('int', int), ('list', list), ('tuple', tuple), ('dict', dict), ('float', float)):
+        if type(v) is t:
+            return Builtin_(nm)
+    raise Unsupported('type() of symbolic value')
